@@ -1,5 +1,6 @@
 import Bardic.Driver.Obs
 import Bardic.Driver.StdlibRun
+import Bardic.Driver.CodecRun
 /-!
 # `driver`: line protocol.  One JSON case per input line, one JSON answer per output line.
 -/
@@ -106,6 +107,7 @@ def handle (line : String) : String :=
     match getStr j "kind" "play" with
     | "play" => (runPlay j).compress
     | "stdlib" => (runStdlib j).compress
+    | "codec" => (runCodec j).compress
     | k => (jObj [("status", "unknown_kind"), ("kind", .str k)]).compress
 
 partial def loop (h : IO.FS.Stream) (out : IO.FS.Stream) : IO Unit := do
